@@ -41,12 +41,33 @@ Definition model_isolated_b (cfg : config) (q : request) : bool :=
      forallb (fun s => forallb (opt_sent_eqb s) alone) (sent_seq cfg q k))
   (seq 0 (List.length cfg)).
 
-(* the class of inputs the statement excludes: a body shared by shallow clones (no backend
-   with a method other than GET/HEAD, so bodies are not replicated) *)
-Definition in_scope (cfg : config) (q : request) : bool :=
+(* Which inputs the statement covers.  Bodies are replicated only when some backend uses a
+   method other than GET/HEAD; otherwise the pipelines hold the SAME body reader.  That is
+   harmless as long as at most one pipeline touches it: a backend touches the body it is handed
+   unless it is a GraphQL QUERY backend without concurrent calls (the query stage replaces the
+   Body field of its own struct and never reads or closes the old reader). *)
+Definition touches_body (b : backend) : bool :=
+  (2 <=? b_cc b)%nat ||
+  match b_gql b with
+  | Some g => match g_kind g with GMutation => true | GQuery => false end
+  | None => true
+  end.
+Fixpoint at_most_one_toucher (bs : list backend) : bool :=
+  match bs with
+  | [] => true
+  | b :: r => if touches_body b then negb (existsb touches_body r) else at_most_one_toucher r
+  end.
+(* no sharing at all: single backend, no body, or replicated bodies *)
+Definition in_scope_basic (cfg : config) (q : request) : bool :=
   match cfg with
   | [_] => true
   | _ => match q_body q with None => true | Some _ => has_unsafe cfg end
+  end.
+(* excluded: a body shared by shallow clones that two or more pipelines consume *)
+Definition in_scope (cfg : config) (q : request) : bool :=
+  match cfg with
+  | [_] => true
+  | _ => match q_body q with None => true | Some _ => has_unsafe cfg || at_most_one_toucher cfg end
   end.
 
 (* what the model itself "observes": per backend the requests handed to the http proxy in the
